@@ -15,9 +15,10 @@ TRUSTED_BASE = ['the accepted language is the hand-written transcription Grammar
 ASSUMPTIONS = ['queries up to ~300 characters, nesting up to 40']
 
 UNI = ['ü', 'Ł', '“', '”', 'é́', '😀', '́', 'ß', '—', ' ', ' ', '日本']
-TOKS = ['|', '(', ')', '[', ']', '"', "'", ',', ' as ', ' by ', '*', '{', '}', '\\', ' and ', ' or ', '==', '!', ' from ', ' on ', '0', '1.5', ' limit ', ' count ', ' desc']
+TOKS = ['|', '(', ')', '[', ']', '"', "'", ',', ' as ', ' by ', '*', '{', '}', '\\', ' and ', ' or ', '==', '!', ' from ', ' on ', '0', '1.5', ' limit ', ' count ', ' desc', ' nan', ' inf', '1e999', ' ascending', ' dsc', ' only ', ' nodrop']
 
 STATIC_ERRORS = [
+    '* | limit nan', '* | limit NaN', '* | limit inf', '* | limit -inf', '* | limit infinity', '* | limit 1e400', '* | json | count | limit nan',
     '* | limit 0', '* | limit 0.5', '* | limit -1.5', '* | limit 1e-2', '* | json | limit 0.0',
     '* | parse "* *" as a', '* | parse "*" as a, b', '* | parse "x" as a', '* | parse "* *"',
     '* | parse "*" from a as x from b', '* | parse "*" from a from b as x',
